@@ -93,7 +93,9 @@ def explore(res, scale=1, seed=None):
         "truncated, one-byte-altered and garbage streams) x segmentations (at once = reference, byte by byte, one byte per Read, two "
         "pieces at every offset (all offsets of streams up to ~120 bytes, else packet/frame-boundary-biased plus random), random "
         "pieces with random short-read patterns and a split handshake, silences longer than ReadTimeout (30 ms, real deadlines) in "
-        "front of packets). rd = a stream of encoded fields (uvarints at boundaries, over-long varints, strings, raw blocks, bools, "
+        "front of packets: in front of the first two and a random subset of the others, and in front of EVERY packet of the stream at "
+        "once (1-3 silences each; at once, byte by byte, or random pieces with short reads), with the oracle that a well-formed stream "
+        "read to its last byte saw at least as many read timeouts as silences were scripted; a pause inside a packet body). rd = a stream of encoded fields (uvarints at boundaries, over-long varints, strings, raw blocks, bools, "
         "ints, packet codes incl. non-canonical two-byte codes, compressed regions of 1-3 frames of any method, corrupted frames; "
         "truncated / reset / out-of-step variants) x a chunking (at once, byte by byte, two pieces, random, empty reads, silences "
         "between and inside fields) x a short-read pattern x the matching Reader calls. A case is non-trivial when the implementation "
@@ -109,9 +111,16 @@ def explore(res, scale=1, seed=None):
         "the connection's events are finite and end in a permanent error (EOF or a network error); a peer that stays silent for ever "
         "is outside the model",
         "a silence is modelled as a number of Timeout events: one expires one armed read deadline; a read without deadline waits it out",
-        "timeout_between_packets_neutral is stated for silences in front of a packet with nothing buffered (the receive loop's "
-        "packet-code read); a deadline that expires between the bytes of a non-canonical multi-byte packet code does lose the bytes "
-        "already read (shown in the non-vacuity example; servers encode codes in one byte)",
+        "receive_loop_gaps_neutral / receive_loop_erase_gaps hold for silences in front of any subset of the packets of a stream, any "
+        "number of them, under the premise gaps_at_boundaries: at every point where the loop calls Client.packet no deadline is armed, "
+        "compression is off (decodeBlock's deferred DisableCompression) and the bytes of the packet code arrive without a silence "
+        "between them; a deadline that expires between the bytes of a non-canonical multi-byte packet code does lose the bytes already "
+        "read (shown in both non-vacuity examples; servers encode codes in one byte). gaps_shape (no silence directly after a byte "
+        ">= 128) is a sufficient premise on the shape of the stream alone; gab_check decides the exact premise",
+        "the equalities of the gap theorems are modulo the number of loop rounds: the run with silences needs at most one more round "
+        "per silence (both directions are proved; a run that exhausts its fuel is outside the equalities)",
+        "a packet boundary reached with compression still switched on (no handler of the real client does that) is outside the gap "
+        "theorems: the packet code would then be read through the decompressing reader",
         "decode_chunk_independent covers a Prim.parser through a reader program that realizes it: realizers are given for every "
         "primitive of Prim.v, bind, rep, fuel-from-length loops and for every message layout (decode_fields); the column and block "
         "decoders of Columns.v / Block.v are covered by the generic theorems reader_program_flatten / segmentation_independent "
